@@ -49,7 +49,7 @@ CLAIMED["C01"] = dict(
     note=TRUST + "INT-CTXT of AES-GCM assumed outside Lean; the driver uses a toy MAC as AEAD instance (theorems quantify over any AEAD); "
          "history-level non-interference is the Lean theorem C01_history_noninterference (erasing any set of unauthentic arrivals from any history "
          "changes only stats.dropped), resting on the proved commutation of every model operation with the dropped counter.",
-    design="§8 C01", technique="Lean 4 proof (per-step full-state equality) + differential correspondence with attacker stream")
+    design="§8 C01", technique="Lean 4 proof (per-step full-state equality) + differential correspondence with attacker stream + kernels regenerated from the source by a translator and proved equal to the model (Props/Equiv*.lean)")
 
 CLAIMED["C19"] = dict(
     text="Lean theorems with scrypt and SHA-256 as ARBITRARY function parameters: every password verifies against its own hash "
@@ -97,7 +97,7 @@ CLAIMED["C03"] = dict(
          "including a soak that wraps the sequence number; every sealed datagram is opened with the real AES-GCM.",
     note=TRUST + "hypotheses: no _build_packet call raised (C09_build_total, monitored), clock values >= 0; confidentiality of AES-GCM "
          "assumed; 'an endpoint without a key only queues hellos' belongs to the handshake model (C02).",
-    design="§8 C03", technique="Lean 4 proof (frame lemmas + chain invariant by induction over operation histories) + differential correspondence")
+    design="§8 C03", technique="Lean 4 proof (frame lemmas + chain invariant by induction over operation histories) + differential correspondence + kernels regenerated from the source by a translator and proved equal to the model (Props/Equiv*.lean)")
 
 CLAIMED["C09"] = dict(
     text="Lean theorems: every in-range header encodes to 20 bytes that decode to the same fields (wrong side refused, out-of-range "
@@ -148,7 +148,7 @@ CLAIMED["C06"] = dict(
          "connection.py by two-party differentials with several fragmented messages in flight under reorder/duplication/loss at MTU "
          "512..1500, comparing every delivery by length and CRC-32. History level: C06_fragments_history - for every sequence of authentic fragment arrivals (any order, repetition, interleaving, arrival times / expiry) no exception is raised and every reassembled delivery is the concatenation of the fragments produced for one send.",
     note=TRUST + "relative to one message per fragment id in the considered history (16-bit id space) and authentic fragments (C01).",
-    design="§8 C06", technique="Lean 4 proof (split/join induction, slot-consistency invariant) + differential correspondence")
+    design="§8 C06", technique="Lean 4 proof (split/join induction, slot-consistency invariant) + differential correspondence + kernels regenerated from the source by a translator and proved equal to the model (Props/Equiv*.lean)")
 
 CLAIMED["C07"] = dict(
     text="Lean theorems, each for every state: a resolution removes exactly its entry from pending_acks, increments exactly one of "
@@ -180,7 +180,7 @@ CLAIMED["C05"] = dict(
          "(C05_fragment_expiry_witness) and a KNOWN-FINDING.",
     note=TRUST + "liveness is not one Lean theorem (partial); schedule fairness and keepAlive+2*delay < outgoingTimeout are assumptions of the "
          "argument; UdpClient / ServerClientConnection send_guaranteed entry points are checked on the real code only.",
-    design="§8 C05", technique="Lean 4 proof (per-step progress lemmas, witness of the recorded defect) + differential correspondence with healed schedules")
+    design="§8 C05", technique="Lean 4 proof (per-step progress lemmas, witness of the recorded defect) + differential correspondence with healed schedules + kernels regenerated from the source by a translator and proved equal to the model (Props/Equiv*.lean)")
 
 CLAIMED["C12"] = dict(
     text="Lean theorems over the Conn/Handshake models plus a Client layer (UdpClient setters/connect/update as repaired, ServerContext, the "
